@@ -34,7 +34,7 @@ def run(m, chk):
         "weights of both operands; the ValueError interval test of KnotVector.split precedes the asserting heavy layer; no divisor on the split path is a bare node parameter (cut at 0). "
         "Equality of each piece with the original and the junction multiplicity are not decided."
     )
-    chk.decides = ["PURE/FRESH(split, |)", "DEP-MUST weights of the pieces / of the joined curve", "GATE(max(A) = min(B))", "X-ASSERT(split)", "D"]
+    chk.decides = ["PURE/FRESH(split, |)", "DEP-MUST weights of the pieces / of the joined curve", "GATE(max(A) = min(B))", "X-ASSERT(split)", "D", 'INTERVAL (pieces / join built on the operand knot values)', 'MULT-KEEP']
     chk.not_decided = ["each piece equals the original on its sub-interval", "junction knot multiplicity after joining"]
     r.pure("PURE", SPLIT, ["self", "nodes"])
     r.fresh_result("FRESH", SPLIT)
